@@ -3,19 +3,19 @@ import itertools, math
 import numpy as np
 from vlib.run import Case
 from symx import core as sx
-from symx.core import var, assume, eq, sa
+from symx.core import var, assume, eq, sa, band
 
 META = dict(
     explanation='atomman.mep.integrator.euler/rungekutta and gradient.central_difference are executed on symbolic A (n x n), y, h and on polynomial test functions with symbolic coefficients; ISMPath.step is executed up to the integrator call (cut) with a symbolic linear gradient field.',
     functions=['atomman/mep/integrator/euler.py:euler', 'atomman/mep/integrator/rungekutta.py:rungekutta',
                'atomman/mep/gradient/central_difference.py:central_difference', 'atomman/mep/ISMPath.py:ISMPath.step (rate, climbrate closures)',
-               'atomman/mep/BasePath.py:BasePath.grad_energy'],
+               'atomman/mep/BasePath.py:BasePath.grad_energy', 'atomman/mep/ISMPath.py:ISMPath.relax (loop control; step() cut)'],
     bounds=dict(quick='n = 1..4 (A n x n, y n, h: all reals); rate function with and without **kwargs; polynomials of total degree <= 4 in 1-2 variables, all coefficients, points and steps != 0 real; climbing: 3 images x 2 dims, symbolic gradient field and unit tangents',
                 thorough='n = 1..6; polynomials degree <= 4 in 1-3 variables incl. leading shapes (2,n)'),
     outside=['ISMPath.relax convergence, ends reaching minima, saddle energy (iterated SciPy CubicSpline re-spacing: no bounded symbolic formulation)',
              'IEEE-754 rounding (real arithmetic is decided)'],
     lemmas=['L4 Taylor coefficients of exp: the reference polynomial sum_{k<=p} (hA)^k y / k! is built by the harness'],
-    cuts=['ISMPath.integratorfxn replaced by a capturing stub (the spline re-spacing tail is outside the claim)'],
+    cuts=['ISMPath.integratorfxn replaced by a capturing stub (the spline re-spacing tail is outside the claim)', 'ISMPath.step replaced by a stub moving one image by a symbolic displacement (relax loop-control cases)'],
     assumptions=['step sizes non-zero', 'unit tangents (|tau| = 1) for the climbing clause'],
     trusted=[],
 )
@@ -187,6 +187,50 @@ def h_climb(nimg, dim):
     return fn
 
 
+def h_relax_control(nrelax, nclimb):
+    """ISMPath.relax loop control with step() cut: each phase runs until its own max-displacement-per-
+    timestep drops below the tolerance or its step budget is used up (relaxation converging must not
+    switch the climbing phase off); the step history is a symbolic sequence of displacements"""
+    def fn():
+        from atomman.mep import ISMPath
+        tol = var('tol', 0.001, 1); dt = var('dt', 0.01, 1)
+        dr = [var(f'd_relax{k}', 0.0001, 10) for k in range(nrelax)]
+        dc = [var(f'd_climb{k}', 0.0001, 10) for k in range(nclimb)]
+        if sx.symbolic_mode():
+            for v in dr + dc:       # away from ties with the tolerance
+                assume((v / dt - tol >= 1e-6) | (tol - v / dt >= 1e-6))
+        calls = []
+        class P(ISMPath):
+            def step(self, timestep=None, climbindex=None):
+                kind = 'relax' if climbindex is None else 'climb'
+                k = sum(1 for c in calls if c[0] == kind)
+                seq = dr if kind == 'relax' else dc
+                shift = seq[k] if k < len(seq) else 1.0
+                calls.append((kind, timestep, None if climbindex is None else list(np.asarray(climbindex).tolist())))
+                new = np.array(self.coord, dtype=object) if sx.symbolic_mode() else np.array(self.coord, dtype=float)
+                new[1, 0] = new[1, 0] + shift
+                return P(sa(new) if sx.symbolic_mode() else new, self.energyfxn, gradientfxn=self.gradientfxn, gradientkwargs={}, integratorfxn='euler')
+        efxn = lambda x: np.array([0.0, 1.0, 0.0])       # one interior maximum -> climb index [1]
+        p = P(np.array([[0.0, 0.0], [0.5, 0.3], [1.0, 0.0]]), efxn, gradientfxn=lambda f, x, **kw: np.zeros_like(x), gradientkwargs={}, integratorfxn='euler')
+        out = p.relax(relaxsteps=nrelax, climbsteps=nclimb, timestep=dt, tolerance=tol, verbose=False)
+        nr = sum(1 for c in calls if c[0] == 'relax'); nc = sum(1 for c in calls if c[0] == 'climb')
+        # expected counts from the symbolic history
+        def expected(seq):
+            n = 0
+            for v in seq:
+                n += 1
+                if v / dt < tol: break
+            return n
+        ob = [('relaxation steps == first convergence or budget', nr == expected(dr)),
+              ('climbing steps == first convergence or budget (independent of the relaxation phase)', nc == expected(dc)),
+              ('phases in order', [c[0] for c in calls] == ['relax'] * nr + ['climb'] * nc),
+              ('climbing applied to the interior energy maximum', all(c[2] == [1] for c in calls if c[0] == 'climb')),
+              ('timestep passed on', band(*[eq(c[1], dt) for c in calls]))]
+        ob.append(('returned path is the last one produced', eq(out.coord[1, 0], 0.5 + sum(dr[:nr]) + sum(dc[:nc]))))
+        return ob
+    return fn
+
+
 def cases(tier, seed=0):
     cs = []
     nmax = 4 if tier == 'quick' else 6
@@ -204,6 +248,9 @@ def cases(tier, seed=0):
         cs.append(Case(f'cdiff_v{nv}_d{deg}_l{lead}', h_cdiff(nv, deg, lead), bind=BIND, budget_s=120, timeout_ms=30000,
                        descr=f'central_difference on all polynomials of degree<={deg} in {nv} variables, coord shape {"(%d,%d)" % (lead, nv) if lead else "(%d,)" % nv}'))
     cs.append(Case('climb_3x2', h_climb(3, 2), bind=BIND, budget_s=120, descr='ISMPath.step rate/climbrate closures, 3 images x 2 dims'))
+    for nr, nc in ((1, 1), (2, 2), (2, 1)) if tier == 'quick' else ((1, 1), (2, 2), (2, 1), (3, 3), (1, 3), (0, 2)):
+        cs.append(Case(f'relax_control_{nr}_{nc}', h_relax_control(nr, nc), bind=BIND, budget_s=120,
+                       descr=f'ISMPath.relax loop control, step() cut, symbolic displacement history ({nr} relax, {nc} climb steps)'))
     if tier == 'thorough':
         cs.append(Case('climb_4x3', h_climb(4, 3), bind=BIND, budget_s=300, descr='ISMPath.step rate/climbrate closures, 4 images x 3 dims'))
     return cs
